@@ -280,7 +280,7 @@ macro_rules! advance_split {
 advance_split!(c15_vec_advance_a, Vec<u8>, 0, N - 2);
 advance_split!(c15_vec_advance_b, Vec<u8>, N - 1, N - 1);
 advance_split!(c15_vec_advance_c, Vec<u8>, N, N);
-advance_split!(c15_small_advance_a, SmallVec<[u8; 2]>, 0, NS - 1);
+advance_split!(c15_small_advance_a, SmallVec<[u8; 2]>, 0, @@NSA@@);
 both!(h_clear, c15_vec_clear, c15_small_clear);
 both!(h_slide, c15_vec_slide, c15_small_slide);
 both!(h_views, c15_vec_views, c15_small_views);
